@@ -273,6 +273,43 @@ func checkThesauri(prop string, seg segment.Segment, want *spec.Obs, excepts []s
 						v = violation(prop, "thes/synonyms", "%sthesaurus %q term %q exclusion #%d %v reuse=%v: got %v, model %v", tag, name, term, ei, ex, reuse, got, exp)
 						return nil
 					}
+					if ei == 0 && len(exp) >= 2 {
+						// two iterators asked of ONE list without preallocation: the first is read
+						// once, the second is drained, the first continues - each yields the whole set
+						l2, err := th.SynonymsList([]byte(term), bm, nil)
+						if err != nil {
+							return err
+						}
+						ia := l2.Iterator(nil)
+						var gotA, gotB []spec.SynPair
+						if s1, err := ia.Next(); err != nil {
+							return err
+						} else if s1 != nil {
+							gotA = append(gotA, spec.SynPair{Syn: s1.Term(), Doc: s1.Number()})
+						}
+						ib := l2.Iterator(nil)
+						for _, w := range []struct {
+							it  segment.SynonymsIterator
+							out *[]spec.SynPair
+						}{{ib, &gotB}, {ia, &gotA}} {
+							for len(*w.out) <= 10000 {
+								s2, err := w.it.Next()
+								if err != nil {
+									return err
+								}
+								if s2 == nil {
+									break
+								}
+								*w.out = append(*w.out, spec.SynPair{Syn: s2.Term(), Doc: s2.Number()})
+							}
+						}
+						sortPairs(gotA)
+						sortPairs(gotB)
+						if !reflect.DeepEqual(gotA, exp) || !reflect.DeepEqual(gotB, exp) {
+							v = violation(prop, "thes/two-iterators-of-one-list", "%sthesaurus %q term %q: two iterators of one list (first read once, second drained, first continued) gave %v and %v, model %v", tag, name, term, gotA, gotB, exp)
+							return nil
+						}
+					}
 				}
 			}
 			// recycling callers: an iterator obtained from an EMPTY lookup (the shared empty
